@@ -49,12 +49,16 @@ for typ, ctor, dele, dtype, dup in TX:
 //@ func %s$1
 //@   nopanic [C25]
 //@   tags [C23]
-//@   requires [C25] conn: client != nil && client.conn != nil
+//@   requires [C25] conn: client != nil && client.conn != nil%s
 //@   requires [C17] holds_what_was_sent: %s
 //@   assigns %s
 //@   ensures [C17] resent_as_is: (client.wireN == old(client.wireN) || client.wireN == old(client.wireN) + 1) &&
 //@      (result == nil ==> client.wireN == old(client.wireN) + 1) && (client.wireN == old(client.wireN) + 1 ==> client.wire[old(client.wireN)] == lastPkt)
-''' % (', with DUP set' if dup else '', ctor, pre, assigns))
+''' % (', with DUP set' if dup else '', ctor, ' && client.state != nil' if typ == 'pingTransaction' else '', pre, assigns))
+    if typ == 'pingTransaction':
+        w('''// C33: a keep-alive PINGREQ is retransmitted only while the client is active (1 = util.StateActive); otherwise the exchange is abandoned
+//@   ensures [C33] not_resent_unless_active: old(deref(client.state)) != 1 ==> client.wireN == old(client.wireN) && client.tryN == old(client.tryN) && result != nil
+''')
     if dup:
         w('''//@   ensures [C17] dup_set: (istype(lastPkt, *pkts1.Publish) ==> lastPkt.(*pkts1.Publish).DUPProperty.dup) &&
 //@      (istype(lastPkt, *pkts1.Subscribe) ==> lastPkt.(*pkts1.Subscribe).DUPProperty.dup)
@@ -250,7 +254,10 @@ w("""
 w("""
 // ---- sleep exchange (C25; timing of the sleep itself: C12/C33 not applicable) ----
 // state: 0 before Sleep, 5 awaitingDisconnect (t.disconnect is the DISCONNECT to retransmit), 6 awaitingPingresp.
+// t.disconnect is the DISCONNECT to retransmit while the gateway has not acknowledged it, nil otherwise; the resend timer may fire at
+// any moment (also after the acknowledgement), so its callback may rely on this invariant only (`async`), not on t.disconnect != nil.
 //@ pred sleepWF(t *sleepTransaction) = t != nil && t.client != nil && cLite(t.client) && t.TransactionBase != nil && t.TransactionBase.done != nil && t.log != nil
+//@ pred sleepResendWF(t *sleepTransaction) = sleepWF(t) && (t.disconnect != nil ==> wfFromClient(box(*pkts1.Disconnect, t.disconnect)))
 //@ func newSleepTransaction
 //@   nopanic [C25]
 //@   requires [C25] client: client != nil && cLite(client) && client.group != nil
@@ -284,6 +291,7 @@ w("""
 //@   assigns deref(t.client.state), t.timer, armed(t.timer)
 //@   ensures [C25] keeps: sleepWF(t)
 //@ func (*sleepTransaction).wakeup
+//@   async [C25] wf: sleepWF(t)
 //@   nopanic [C25]
 //@   tags [C23]
 //@   requires [C25] wf: sleepWF(t)
@@ -291,25 +299,31 @@ w("""
 //@   assigns deref(c.state), t.state, t.timer, armed(t.timer), c.wireN, c.wire, c.tryN, c.try, t.TransactionBase.err, closed(t.TransactionBase.done), calls(t.TransactionBase.finally)
 //@   ensures [C25] keeps: sleepWF(t)
 //@ func (*sleepTransaction).wakeup$1
+//@   async [C25] wf: t != nil && t.TransactionBase != nil && t.TransactionBase.done != nil
 //@   nopanic [C25]
 //@   requires [C25] wf: t != nil && t.TransactionBase != nil && t.TransactionBase.done != nil
 //@   assigns armed(t.timer), t.TransactionBase.err, closed(t.TransactionBase.done), calls(t.TransactionBase.finally)
 //@ func (*sleepTransaction).Sleep
 //@   nopanic [C25]
 //@   tags [C23]
+//@   guarded [C25] mutex: disconnect
 //@   requires [C25] wf: sleepWF(t)
 //@   let c = t.client
 //@   assigns deref(c.state), t.disconnect, t.state, t.timer, armed(t.timer), c.wireN, c.wire, c.tryN, c.try, t.TransactionBase.err, closed(t.TransactionBase.done), calls(t.TransactionBase.finally)
 //@   ensures [C25] keeps: sleepWF(t)
 //@ func (*sleepTransaction).resendDisconnect
+//@   async [C25] wf: sleepResendWF(t)
 //@   nopanic [C25]
 //@   tags [C23]
-//@   requires [C25] wf: sleepWF(t) && t.disconnect != nil && wfFromClient(box(*pkts1.Disconnect, t.disconnect))
+//@   guarded [C25] mutex: disconnect, disconnectResendNum
+//@   requires [C25] wf: sleepResendWF(t)
 //@   let c = t.client
 //@   assigns t.disconnectResendNum, t.timer, armed(t.timer), c.wireN, c.wire, c.tryN, c.try, t.disconnect.Header.pktLength, t.TransactionBase.err, closed(t.TransactionBase.done), calls(t.TransactionBase.finally)
-//@   ensures [C25] keeps: sleepWF(t) && t.disconnect != nil && wfFromClient(box(*pkts1.Disconnect, t.disconnect))
+//@   ensures [C25] keeps: sleepResendWF(t)
+//@   ensures [C25,C23] nothing_resent_once_acknowledged: old(t.disconnect) == nil ==> c.wireN == old(c.wireN) && c.tryN == old(c.tryN)
 //@ func (*sleepTransaction).Disconnect
 //@   nopanic [C25]
+//@   guarded [C25] mutex: disconnect
 //@   requires [C25] wf: sleepWF(t) && disconnect != nil
 //@   assigns deref(t.client.state), t.disconnect, t.timer, armed(t.timer)
 //@   ensures [C25] keeps: sleepWF(t)
